@@ -606,7 +606,11 @@ func c02RevisionFieldPath(addr ssa.Value) string {
 }
 
 // c02RevisionGetterSource: the invoked zero-argument getter returns .Status.Revision ("Status") or
-// .Spec.Revision ("Spec") in every workspace implementation.
+// .Spec.Revision ("Spec") in every workspace implementation that can be the receiver. The
+// receiver's static type alone may be a narrow, locally declared interface that types outside the
+// ObjectSet family satisfy as well; what decides is what can arrive: a parameter is followed to the
+// arguments at its static call sites (bounded), and an implementation counts only if it also
+// satisfies the static type the value has there.
 func c02RevisionGetterSource(p *Program, cc *ssa.CallCommon) string {
 	if !cc.IsInvoke() {
 		return ""
@@ -615,8 +619,35 @@ func c02RevisionGetterSource(p *Program, cc *ssa.CallCommon) string {
 	if it == nil {
 		return ""
 	}
+	if s := c02GetterSourceAmong(p, it, cc.Method.Name(), nil); s != "" {
+		return s
+	}
 	out := ""
-	for _, impl := range p.implementationsOf(it, cc.Method.Name()) {
+	for _, org := range p.c03Origins(cc.Value, 3) {
+		bound := ifaceOf(org)
+		if bound == nil || org == stripConv(cc.Value) {
+			return ""
+		}
+		s := c02GetterSourceAmong(p, it, cc.Method.Name(), bound)
+		if s == "" || (out != "" && out != s) {
+			return ""
+		}
+		out = s
+	}
+	return out
+}
+
+// c02GetterSourceAmong: what the getter returns in every implementation of `it` (that also
+// implements `bound`, when given); "" when they differ, none exists, or a shape is not recognised.
+func c02GetterSourceAmong(p *Program, it *types.Interface, method string, bound *types.Interface) string {
+	out := ""
+	for _, impl := range p.implementationsOf(it, method) {
+		if bound != nil {
+			rt := impl.Signature.Recv().Type()
+			if !types.Implements(rt, bound) {
+				continue
+			}
+		}
 		t := ""
 		for _, rc := range p.returnCases(impl) {
 			if len(rc.Results) != 1 {
